@@ -167,11 +167,15 @@ Fixpoint rx_tokens (toks : list tok) : list tok * list Z :=
 (* the header scan of handleData: up to header_limit bytes < 128, then a type byte >= 128 *)
 Inductive hres := HNeed | HBad | HTok (header : Z) (typebyte : Z) (rest : list Z).
 
+(* `header = b1282int(first65[:pos])` if pos else 0; acc holds the header digits, latest first *)
+Definition hdr_of (acc : list Z) : Z :=
+  match acc with [] => 0 | _ => match b1282int (rev acc) with Ok v => v | Exc _ => -1 end end.
+
 Fixpoint scan (n : nat) (acc : list Z) (l : list Z) {struct l} : hres :=
   match l with
   | [] => HNeed
   | b :: r => if 128 <=? b
-              then HTok (match acc with [] => 0 | _ => match b1282int (rev acc) with Ok v => v | Exc _ => -1 end end) b r
+              then HTok (hdr_of acc) b r
               else match n with O => HBad | S n' => scan n' (b :: acc) r end
   end.
 
